@@ -25,10 +25,10 @@ ASSUMPTIONS = [
 ]
 
 AW = 6  # address symbols are 5-bit values, arithmetic done on 6+ bits
-KINDS = ["raw", "cst", "reg", "comp", "slc"]
+KINDS = ["raw", "cst", "reg", "comp", "slc", "mem"]
 
 
-def mkobj(kind, n, w):
+def mkobj(kind, n, w, endian=1):
     """object of n bytes written by writer w -> (data for zone.write, list of z3 byte terms in 'natural' LSB-first order or raw list)"""
     if kind == "raw":
         return bytes([(0x10 * (w + 1) + k) & 0xFF for k in range(n)])
@@ -43,6 +43,9 @@ def mkobj(kind, n, w):
         return X.composer([X.reg("c%d" % w, 8), X.reg("d%d" % w, 8 * (n - 1))])
     if kind == "slc":
         return X.reg("s%d" % w, 64)[8:8 + 8 * n]
+    if kind == "mem":
+        # the stored value is itself a memory expression (a loaded value that is stored elsewhere)
+        return X.mem(X.reg("m%d" % w, 64), 8 * n, endian=endian)  # same byte order as the script (see ASSUMPTIONS)
     raise ValueError(kind)
 
 
@@ -87,10 +90,24 @@ def scripts(tier, seed):
             # two maps are filled (writes alternate), merged once, then only read
             ops = [o for o in ops if o[0] == "w"] + [o for o in ops if o[0] == "r"]
         rich.append((rnd.choice([1, -1]), zk, ops))
+    # value semantics of copy(): write, copy, overlapping write to the copy, read (the original is re-read too)
+    copies = []
+    for zk in ("zone", "map-concrete", "map-symbolic"):
+        for k1, k2 in (("raw", "raw"), ("raw", "reg"), ("reg", "raw"), ("mem", "cst"), ("comp", "reg")):
+            copies.append((1, zk, [("w", k1, 4), ("copy",), ("w", k2, 2), ("r", 4)]))
+    # a stored memory expression that is partly overwritten / read from its middle
+    mems = []
+    for k2 in ("raw", "reg", "cst"):
+        for e in (1, -1):
+            mems.append((e, "zone", [("w", k2, 4), ("w", "mem", 4), ("r", 4)]))
+            mems.append((e, "zone", [("w", "mem", 4), ("w", k2, 2), ("r", 4)]))
     if tier == "quick":
         rnd2 = random.Random(seed)
         rnd2.shuffle(out)
-        return out[:16] + core3[:8] + rich[:16]
+        rnd2.shuffle(copies)
+        rnd2.shuffle(mems)
+        return out[:12] + core3[:6] + rich[:12] + copies[:6] + mems[:4]
+    out = out + copies + mems
     return out + core3[:400] + rich[:1500]
 
 
@@ -193,11 +210,12 @@ def make_fn(script):
         checked = 0
         merged = False
         refs2 = Ref()
+        olds = []
         for op in ops:
             if op[0] == "w":
                 a = E.sym("a%d" % nsym, 5)
                 nsym += 1
-                obj = mkobj(op[1], op[2], nobj)
+                obj = mkobj(op[1], op[2], nobj, endian)
                 bs = obj_bytes(obj, op[2], endian, c)
                 if zkind == "merge":
                     # reference for merge(self, other): other's objects are added on top of self's, in other's address order ->
@@ -230,12 +248,31 @@ def make_fn(script):
                     else:
                         E.prove(z3.Not(rw), "byte %d reported undefined although it was written" % j)
                     checked += 1
+                for oread, osnap in olds:
+                    oflat = flatten(oread(a, op[1]), endian, c)
+                    E.prove(len(oflat) == op[1], "read(%d bytes) of the copied-from original returned %d bytes" % (op[1], len(oflat)))
+                    for j, (wr, t) in enumerate(oflat[:op[1]]):
+                        rw, rv = osnap.read_byte(addr_term(a) + j)
+                        if wr:
+                            E.prove(z3.And(rw, rv == t), "byte %d of the ORIGINAL changed after it was copied (a later write to the copy shows through)" % j)
+                        else:
+                            E.prove(z3.Not(rw), "byte %d of the ORIGINAL became undefined after it was copied" % j)
+                        checked += 1
             elif op[0] == "copy":
+                # the copy is used from now on; the ORIGINAL must keep the content it had (value semantics):
+                # it is read back, against a snapshot of the reference, at every later read
+                snap = Ref()
+                snap.writes = [[w[0], list(w[1])] for w in ref.writes]
                 if zkind == "zone":
+                    olds.append((lambda a, n, z0=z: z0.read(a, n), snap))
                     z = z.copy()
                     write = lambda a, d, z=z: z.write(a, d, endian)
                     read = lambda a, n, z=z: z.read(a, n)
                 elif zkind != "merge":
+                    if zkind == "map-concrete":
+                        olds.append((lambda a, n, m0=mm: m0.read(a, n), snap))
+                    else:
+                        olds.append((lambda a, n, m0=mm: m0.read(X.ptr(base, disp=a), n), snap))
                     mm = mm.copy()
             elif op[0] == "restruct":
                 if zkind == "zone":
@@ -329,12 +366,26 @@ def replay(rep):
         out = [("exp", str(obj.bytes(k, k + 1, endian=endian).simplify())) for k in range(n)]
         return out
 
+    olds = []
+
+    def descr(parts):
+        got = []
+        for p in parts:
+            if isinstance(p, bytes):
+                got += [("raw", b) for b in p]
+            elif not p._is_def:
+                got += [None] * (p.size // 8)
+            else:
+                n = p.size // 8
+                got += [("exp", str(p.bytes(k, k + 1, endian=endian).simplify())) for k in range(n)]
+        return got
+
     try:
         for op in ops:
             if op[0] == "w":
                 a = vals.get("a%d" % nsym, 0)
                 nsym += 1
-                obj = mkobj(op[1], op[2], nobj)
+                obj = mkobj(op[1], op[2], nobj, endian)
                 nobj += 1
                 bs = bytes_of(obj, op[2])
                 tgt = refd
@@ -363,22 +414,24 @@ def replay(rep):
                     parts = mm.read(a, op[1])
                 else:
                     parts = mm.read(X.ptr(base, disp=a), op[1])
-                got = []
-                for p in parts:
-                    if isinstance(p, bytes):
-                        got += [("raw", b) for b in p]
-                    elif not p._is_def:
-                        got += [None] * (p.size // 8)
-                    else:
-                        n = p.size // 8
-                        got += [("exp", str(p.bytes(k, k + 1, endian=endian).simplify())) for k in range(n)]
+                got = descr(parts)
                 want = [refd.get(a + j) for j in range(op[1])]
                 if got != want:
                     return (True, "read(%d,%d) gives %s ; last-write-wins model gives %s" % (a, op[1], got, want))
+                for oread, osnap in olds:
+                    got = descr(oread(a, op[1]))
+                    want = [osnap.get(a + j) for j in range(op[1])]
+                    if got != want:
+                        return (True, "the copied-from ORIGINAL now reads %s at (%d,%d); it held %s when it was copied" % (got, a, op[1], want))
             elif op[0] == "copy":
                 if zkind == "zone":
+                    olds.append((lambda a, n, z0=z: z0.read(a, n), dict(refd)))
                     z = z.copy()
                 elif zkind != "merge":
+                    if zkind == "map-concrete":
+                        olds.append((lambda a, n, m0=mm: m0.read(a, n), dict(refd)))
+                    else:
+                        olds.append((lambda a, n, m0=mm: m0.read(X.ptr(base, disp=a), n), dict(refd)))
                     mm = mm.copy()
             elif op[0] == "restruct":
                 if zkind == "zone":
@@ -402,7 +455,7 @@ def coverage(agg, tier):
         "scripts": agg.get("scripts", 0), "incomplete_explorations": agg.get("incomplete_explorations", 0), "unsupported_paths": agg.get("unsupported_paths", 0),
         "stubs": symx.STUBS,
         "rule": "state = one path of a script executed on MemoryZone/MemoryMap with symbolic addresses (each path = one overlap configuration); obligation = per read byte: written-ness and value equal the z3 last-write-wins model; traces validated = path models re-run concretely against a python dict",
-        "bounds": {"scripts": "<= 4 writes (raw/cst/reg/comp/slc objects of 1..4 bytes) + <= 2 reads + <= 1 of copy/restruct/shift(symbolic offset), on a bare zone, the concrete zone of a MemoryMap, a symbolic zone (ptr(base, disp)) and merge of two maps; quick: 40 seed-selected scripts, thorough: all 225 two-write scripts + 400 three-write + 1500 seeded",
+        "bounds": {"scripts": "<= 4 writes (raw/cst/reg/comp/slc/mem-expression objects of 1..4 bytes) + <= 2 reads + <= 1 of copy/restruct/shift(symbolic offset), on a bare zone, the concrete zone of a MemoryMap, a symbolic zone (ptr(base, disp)) and merge of two maps; copy(): the original is re-read against a snapshot of the model at every later read; quick: 40 seed-selected scripts (incl. 6 copy and 4 stored-memory-expression scripts), thorough: all 225 two-write scripts + 400 three-write + 1500 seeded",
                    "addresses": "each address an independent 5-bit symbol (32-byte window), shift offset 3-bit",
                    "paths": "quick <= 4000 paths / 60 s per script, thorough <= 40000 / 900 s",
                    "outside": "objects > 4 bytes, > 4 writes, mixed endianness within one script, address wrap-around"},
